@@ -130,7 +130,8 @@ pub fn generate(cfg: &RunCfg, _out: &mut Outcome) -> Scenario {
         } else {
             gen_instant()
         };
-        probes.push(Probe { at: at.min(MAX_T), kind: gen_kind(cfg.thorough) });
+        // megabyte-sized bodies (10^6, 10^7, 16^5, 16^6 and neighbours) in every sixth run of the thorough tier only
+        probes.push(Probe { at: at.min(MAX_T), kind: gen_kind(cfg.thorough && cfg.run % 6 == 0) });
     }
     Scenario { probes }
 }
